@@ -193,6 +193,55 @@ func (g *c16Gen) structured() []c16GenReq {
 	add(g.get("/chain/header//x/ancestor", ""), "off anc h=mal a=mal") // an empty segment in the middle does match a parameter
 	add(g.get("/chain/header/"+known(2)+"//ancestor", ""), "off anc h=k2 a=mal")
 	add(g.get("/chain/header//"+known(2)+"/ancestor", ""), "off anc h=mal a=k2")
+	// ---- long paths COMBINED with query strings (and without), long queries with short paths: what middleware that
+	// formats or truncates "path?query" sees.  Lengths are TOTAL path lengths around 2048 and at 4096 / 8192 / 65536.
+	{
+		pad := func(prefix string, total int) string { // a path of exactly `total` bytes ending in one long segment
+			if total <= len(prefix) {
+				return prefix + "a"
+			}
+			return prefix + strings.Repeat("a", total-len(prefix))
+		}
+		full := f.shape == "base" || g.c.Thorough()
+		lens := []int{2049}
+		if full {
+			lens = []int{}
+			for n := 2040; n <= 2060; n++ {
+				lens = append(lens, n)
+			}
+			lens = append(lens, 4096, 8192, 65536)
+		}
+		queries := []string{"x=1", ""}
+		if full {
+			queries = []string{"x=1", "", "x", "=", "height=1&count=2", "q=" + strings.Repeat("b", 3000)}
+		}
+		for _, n := range lens {
+			for qi, q := range queries {
+				if qi > 1 && n != 2049 && n != 8192 {
+					continue
+				}
+				add(g.get(pad("/chain/header/", n-len(c16API)), q), "off hdr h=mal")
+				if full && (n%4 == 1 || n > 2060) {
+					add(g.get(pad("/chain/header/state/", n-len(c16API)), q), "off state h=mal")
+					add(g.get(pad("/chain/header/", n-len(c16API)-len("/x/ancestor"))+"/x/ancestor", q), "off anc h=mal a=mal")
+					add(g.get(pad("/chain/header/"+known(1)+"/", n-len(c16API)-len("/ancestor"))+"/ancestor", q), "off anc h=k")
+					add(g.get(pad("/chain/header/"+known(1), n-len(c16API)), q), "off hdr h=mal") // a known hash with a long tail
+					add(&c16Req{Method: "DELETE", Path: pad(c16API+"/access/", n), Query: q}, "off accdel tok=other")
+					add(&c16Req{Method: "GET", Path: pad(c16API+"/nosuch/", n), Query: q}, "off unrouted")
+					add(&c16Req{Method: "GET", Path: pad("/", n), Query: q}, "off unrouted")
+					add(&c16Req{Method: "POST", Path: pad(c16API+"/webhook/", n), Query: q, CT: "application/json", Body: c16Lit("{}")}, "off unrouted")
+				}
+			}
+			// short paths, query of that total length
+			if full && (n%4 == 1 || n > 2060) {
+				add(g.get("/chain/tip", "x="+strings.Repeat("b", n)), "off tip")
+				add(g.get("/chain/header/byHeight", "height=1&pad="+strings.Repeat("b", n-len(c16API+"/chain/header/byHeight")-len("height=1&pad="))), "off byheight height=n:1")
+				add(g.get("/chain/merkleroot", "batchSize=2&pad="+strings.Repeat("b", n)), "off mroots batch=n:2")
+				add(g.get("/chain/header/"+known(1), strings.Repeat("b", n)), "off hdr h=k")
+				add(g.get("/nosuch", strings.Repeat("b", n)), "off unrouted")
+			}
+		}
+	}
 	// ---- common ancestor
 	js := func(ss ...string) string {
 		q := []string{}
@@ -450,6 +499,12 @@ func (g *c16Gen) structured() []c16GenReq {
 		{"Bearer " + c16UserToken, "user"}, {"Bearer " + f.admin, "admin"},
 	}
 	base := len(out)
+	strideWant := func(pref string, i int) string { // unroutable requests stay unroutable whatever the header
+		if out[i].want == "off unrouted" {
+			return "off unrouted"
+		}
+		return pref
+	}
 	routes := []string{}
 	for rn := range reps {
 		routes = append(routes, rn)
@@ -466,17 +521,17 @@ func (g *c16Gen) structured() []c16GenReq {
 		if i%4 == 0 {
 			r := *out[i].r
 			r.AuthOn, r.Auth = true, "Bearer "+f.admin
-			add(&r, "admin ")
+			add(&r, strideWant("admin ", i))
 		}
 		if i%9 == 0 {
 			r := *out[i].r
 			r.AuthOn, r.Auth = true, "Bearer "+c16UserToken
-			add(&r, "user ")
+			add(&r, strideWant("user ", i))
 		}
 		if i%50 == 0 && !out[i].r.AuthOn {
 			r := *out[i].r
 			r.Auth = "Bearer nosuchtoken" // auth disabled: the header is ignored
-			add(&r, "off ")
+			add(&r, strideWant("off ", i))
 		}
 	}
 	// ---- unroutable requests (gin's own answers; outside the model, observed only for "no 5xx, nothing changed")
